@@ -3951,7 +3951,7 @@ class ISLaEmitter(IslaLanguageListener.IslaLanguageListener):
 
     @staticmethod
     def is_protected_smtlib_keyword(symbol: str) -> bool:
-        if symbol in {"let", "forall", "exists", "match", "!", "ite"}:
+        if symbol in {"let", "forall", "exists", "match", "!", "ite", "distinct"}:
             return True
 
         try:
